@@ -19,6 +19,12 @@ def bit_tests(fn, bit, src_ok=None):
         if i.op == "icmp" and i.d["pred"] in ("eq", "ne") and i.ops[1][0] == "c" and i.ops[1][1] == 0:
             a = fn.inst(i.ops[0])
             if a is not None and a.op == "and" and a.ops[1][0] == "c" and a.ops[1][1] == bit:
+                if src_ok is not None:
+                    w = fn.inst(a.ops[0])
+                    while w is not None and w.op in ("zext", "trunc"):
+                        w = fn.inst(w.ops[0])
+                    if w is None or not src_ok(w):
+                        continue
                 out.append((i, i.d["pred"] == "ne"))
     return out
 
@@ -56,7 +62,8 @@ def rule_MP1(rep, prog, k):
             l = fn.insts.get(r[1]) if r[0] == "i" else None
             if l is not None and l.op == "load" and "dbpd_block" in prog.fields(l):
                 body.append(c)
-        tests = bit_tests(fn, CAN)
+        # the cancel state lives in dbpd_atomic_flags; DBF_CANCELED has the same numeric value as a creation flag in dbpd_flags (DISPATCH_BLOCK_BARRIER)
+        tests = bit_tests(fn, CAN, src_ok=lambda w: w.op in ("load", "atomicrmw") and "dbpd_atomic_flags" in prog.fields(w))
         inc = [i for i in fn.all_insts() if i.op == "atomicrmw" and "dbpd_performed" in prog.fields(i)]
         leave = calls_named(fn, "dispatch_group_leave")
         if not body or not inc or not leave:
@@ -136,6 +143,13 @@ def rule_MP2(rep, prog, k):
     ws = [i for i in fn.all_insts() if (prog.fields(i) & AF) and i.op in ("store", "atomicrmw", "cmpxchg")]
     okc = len(ws) == 1 and ws[0].op == "atomicrmw" and ws[0].d["rmw"] == "or" and ws[0].ops[1][0] == "c" and ws[0].ops[1][1] == k["DBF_CANCELED"]
     rep.require(rid, okc, fn.file, fn.name, "cancel-shape", "dispatch_block_cancel must be a single atomic OR of DBF_CANCELED", sample={"writes": len(ws)})
+    if okc:
+        # ... on every returning path: cancellation is a state of the block object, recorded whether or not an execution already completed
+        okp, ex_ = fn.must_pass(entry_point(fn), ws)
+        rep.require(rid, okp, ws[0].loc, fn.name, "cancel-skipped-on-some-path",
+                    "dispatch_block_cancel can return (at %s) without setting DBF_CANCELED: e.g. a cancel issued after the first execution completed is dropped, "
+                    "dispatch_block_testcancel keeps returning 0 and a re-submitted block runs its body again" % (ex_.loc if ex_ is not None else "?"),
+                    sample={"must_pass": True})
     fn = prog.fn("dispatch_block_testcancel")
     rep.saw(fn)
     rep.require(rid, bool(bit_tests(fn, k["DBF_CANCELED"])) or any(i.op == "and" and i.ops[1][0] == "c" and i.ops[1][1] == k["DBF_CANCELED"] for i in fn.all_insts()),
@@ -175,6 +189,16 @@ def run(rep, tier="quick", srcdir=None, only=None):
         rule_MP2(rep, prog, k)
     if want("C19-TR3"):
         rule_TR3(rep, prog, k, q)
+    if want("C07-MP3") or want("C07-MP4"):
+        # wait / notify of a block object are wait / notify on its private group, which has completed generations behind it after the first
+        # execution: the group-side obligations that matter for that state are shared with C07
+        from . import C07
+        g = consts.get(["DISPATCH_GROUP_VALUE_INTERVAL", "DISPATCH_GROUP_VALUE_MASK", "DISPATCH_GROUP_VALUE_1", "DISPATCH_GROUP_HAS_NOTIFS",
+                        "DISPATCH_GROUP_HAS_WAITERS", "ETIMEDOUT"], srcdir=srcdir, unit="semaphore")
+        if want("C07-MP3"):
+            C07.rule_MP3(rep, prog, g)
+        if want("C07-MP4"):
+            C07.rule_MP4(rep, prog, g)
 
 
 MANIFEST = {
